@@ -81,6 +81,9 @@ type Config struct {
 	KeepKeys  bool          // keep ordered (key) list per level (for cross-process determinism comparison)
 	OnLevel   func(depth int, st *Stats)
 	IsKnown   func(f *Failure) bool // known findings (pruned, reported once)
+	// Accept decides whether a failure belongs to the property being checked. Failures of other properties' oracles
+	// are recorded (Found.Foreign) but do not stop or prune the exploration when they come from a state oracle.
+	Accept func(f *Failure, lastKind string) bool
 	CheckEveryReplay bool               // compare state key and history hash after every replay, not only the first per state
 	DumpLevel int                       // if > 0: call Dump for every new state found at this depth
 	Dump      func(path []Op, key [16]byte, hist uint64)
@@ -90,8 +93,9 @@ type Config struct {
 type Found struct {
 	Failure
 	Path  []Op
-	Count int
-	Known bool
+	Count   int
+	Known   bool
+	Foreign bool
 }
 
 // Stats reports what an exploration covered.
@@ -218,7 +222,7 @@ func Replay(sc Scenario, p []Op, checkStates bool) (Run, *Failure, int) {
 
 // ReplayFull re-executes a history the way the explorer did: state oracles after every operation, and the last
 // operation marked as the operation under test.
-func ReplayFull(sc Scenario, p []Op) (Run, *Failure, int) {
+func ReplayFull(sc Scenario, p []Op, accept func(f *Failure, lastKind string) bool) (Run, *Failure, int) {
 	r := sc.New()
 	if len(p) == 0 {
 		return r, r.Check(), -1
@@ -232,7 +236,7 @@ func ReplayFull(sc Scenario, p []Op) (Run, *Failure, int) {
 			return r, x.Fail, i
 		}
 		if !x.Prune {
-			if f := r.Check(); f != nil {
+			if f := r.Check(); f != nil && (accept == nil || accept(f, sc.OpKind(o))) {
 				return r, f, i
 			}
 		}
@@ -258,12 +262,19 @@ func Explore(sc Scenario, cfg Config) *Stats {
 		if cfg.IsKnown != nil {
 			fo.Known = cfg.IsKnown(f)
 		}
+		if cfg.Accept != nil {
+			last := ""
+			if len(path) > 0 {
+				last = sc.OpKind(path[len(path)-1])
+			}
+			fo.Foreign = !cfg.Accept(f, last)
+		}
 		found[f.Sig] = fo
 		st.Found = append(st.Found, fo)
 	}
 	unknown := func() bool {
 		for _, f := range st.Found {
-			if !f.Known {
+			if !f.Known && !f.Foreign {
 				return true
 			}
 		}
@@ -287,6 +298,7 @@ func Explore(sc Scenario, cfg Config) *Stats {
 	type itemRes struct {
 		rs       []res
 		stateErr *Failure
+		foreign  *Failure
 		done     bool
 	}
 
@@ -346,9 +358,16 @@ func Explore(sc Scenario, cfg Config) *Stats {
 						continue
 					}
 					if f := cur.Check(); f != nil {
-						o.stateErr = f
-						o.done = true
-						continue
+						last := ""
+						if len(p) > 0 {
+							last = sc.OpKind(p[len(p)-1])
+						}
+						if cfg.Accept == nil || cfg.Accept(f, last) {
+							o.stateErr = f
+							o.done = true
+							continue
+						}
+						o.foreign = f
 					}
 					ops := cur.Enabled()
 					o.rs = make([]res, 0, len(ops))
@@ -408,6 +427,9 @@ func Explore(sc Scenario, cfg Config) *Stats {
 			if o.stateErr != nil {
 				addFound(o.stateErr, e.path(si))
 				continue
+			}
+			if o.foreign != nil {
+				addFound(o.foreign, e.path(si))
 			}
 			for _, r := range o.rs {
 				st.Transitions++
